@@ -106,7 +106,10 @@ def run(repo: Repo, rep: Report, tier: str) -> None:
         if got is None:
             rep.defer(f"{fq}: how {name} is taken from the header was not recognised")
             continue
-        okh = got[0][:2] == want and (want[1] == 1 or got[0][2] == "big") and got[1] == "bytestream"
+        # the buffer the fields are taken from is the 6-byte read: the accumulating `bytestream` or a local bound to
+        # the first read (directly or through a read helper of the provider)
+        hdr_ok = got[1] == "bytestream" or any(isinstance(a_, ast.Assign) and len(a_.targets) == 1 and norm(a_.targets[0]) == got[1] and isinstance(strip_cast(a_.value), ast.Call) and strip_cast(a_.value).args and norm(strip_cast(a_.value).args[0]) == "6" for a_ in walk_no_nested(rd))
+        okh = got[0][:2] == want and (want[1] == 1 or got[0][2] == "big") and hdr_ok
         rep.check(okh, "containment", fq, f"{name} <- bytes [{got[0][0]}:{got[0][0] + got[0][1]}] {got[0][2]}-endian of {got[1]}", "the header is type(1) reserved(1) length(4, big-endian)", mod=dul, node=got[2])
 
     # ---- escape -------------------------------------------------------------------
